@@ -54,6 +54,25 @@ def gen(rng, tier):
         # separate code path in both runtimes (nested partial parse through the parser's own context resp. GSS head)
         layout = rng.choice([None, None, None, None, "ws", "comments", "nested"])
         g = random_grammar(rng, p_empty=0.25, layout=layout)
+        if layout is None and rng.random() < 0.2:
+            # right recursion followed by a tail that is nullable only INDIRECTLY (action markers): the right-nulled entries of
+            # such tails are what lets GLR continue after a reduction re-enters a processed head
+            from gram import Gram
+            ts = list(g.terms.items())[:2] or [("Ta", "a")]
+            (ta, ca) = ts[0]
+            (tc, cc) = ts[1] if len(ts) > 1 else ("Tc", "c")
+            depth = rng.randint(1, 3)
+            prods = [("S", ["A"]), ("A", [ta, "A", "P0"]), ("A", [tc])]
+            for i in range(depth):
+                prods.append(("P%d" % i, ["P%d" % (i + 1)] if i + 1 < depth and rng.random() < 0.5 else
+                              (["Q%d" % i, "R%d" % i] if rng.random() < 0.5 else [])))
+            names = {l for l, _ in prods}
+            for l, rhs in list(prods):
+                for x in rhs:
+                    if x not in names and x not in (ta, tc):
+                        prods.append((x, []))
+                        names.add(x)
+            g = Gram(prods, {ta: ca, tc: cc})
         if g.undefined_symbols() or not g.all_productive() or g.is_cyclic():
             continue
         alphabet = list(g.terms.keys())
